@@ -26,6 +26,24 @@ def own_obligations(tier):
         o.append(Obl("create_" + nm[4:], "C18/create.c", "%s: the k-th allocation request fails (k symbolic over every request of the call, arguments symbolic): error code, nothing left allocated, handle NULL or untouched, retry succeeds, everything freeable" % nm,
                      defs=["WHICH=%d" % w] + (["MULTI"] if w in (5, 6, 11) else []), unwind=3, cut_loops=SPIN, object_bits=10, backend="cadical", encodes=[nm, nm.replace("_create", "_free").replace("_with_attr", "")],
                      bounds="every allocation request of one call (1..3)", symbolic="failing request index, size arguments"))
+    REAL2 = ["src/sched/sched.c", "src/sched/basic.c", "src/sched/basic_wait.c", "src/sched/prio.c", "src/sched/randws.c", "src/sched/sched_config.c",
+             "src/pool/pool.c", "src/pool/fifo.c", "src/pool/fifo_wait.c", "src/pool/randws.c", "src/pool/pool_config.c", "src/pool/pool_user_def.c", "src/util/hashtable.c"]
+    C2 = [("pool_create_basic_%s_%s" % (k.lower(), a.lower()), ["WHICH=0", "KIND=ABT_POOL_" + k, "ACC=ABT_POOL_ACCESS_" + a], "ABT_pool_create_basic(%s, %s, automatic flag symbolic)" % (k, a))
+          for k, a in (("FIFO", "PRIV"), ("FIFO", "MPMC"), ("FIFO_WAIT", "MPMC"), ("RANDWS", "PRIV"), ("RANDWS", "MPSC"))]
+    C2 += [
+          ("pool_create_user", ["WHICH=4"], "ABT_pool_create with a user definition whose p_init allocates"),
+          ("pool_user_def_create", ["WHICH=5"], "ABT_pool_user_def_create"),
+          ("pool_config_create", ["WHICH=6"], "ABT_pool_config_create"),
+          ("sched_config_create", ["WHICH=7"], "ABT_sched_config_create with two variables"),
+          ("sched_create_user", ["WHICH=3"], "ABT_sched_create with a user definition whose init allocates, pool array { a pool of the caller, ABT_POOL_NULL } in either order")]
+    for pd in ("BASIC", "BASIC_WAIT", "PRIO", "RANDWS"):
+        C2.append(("sched_create_basic_%s_nopools" % pd.lower(), ["WHICH=1", "PREDEF=ABT_SCHED_" + pd], "ABT_sched_create_basic(%s) creating its own pools" % pd))
+        C2.append(("sched_create_basic_%s_given" % pd.lower(), ["WHICH=2", "PREDEF=ABT_SCHED_" + pd], "ABT_sched_create_basic(%s) with the pool array { a pool of the caller, ABT_POOL_NULL } in either order" % pd))
+    for nm, defs, d in C2:
+        o.append(Obl("ctor_" + nm, "C18/create2.c", d + ": the k-th allocation request fails (k symbolic over every request of the call): error code, nothing left allocated, handle NULL or untouched, the caller's pool keeps its reference count and stays usable, retry succeeds, everything freeable",
+                     real=REAL2, defs=defs + ["free=vr_free", "memcpy=vr_memcpy", "memset=vr_memset"], unwind=10,
+                     encodes=["ABT_sched_create", "ABT_sched_create_basic", "ABTI_sched_create_basic", "sched_create", "ABT_sched_free", "ABT_pool_create", "ABT_pool_create_basic", "pool_create", "ABT_pool_free", "ABT_pool_user_def_create", "ABT_pool_config_create", "ABT_sched_config_create", "ABTU_hashtable_create", "sched_init (basic, basic_wait, prio, randws)", "pool_init (fifo, fifo_wait, randws)"],
+                     bounds="every allocation request of one call (1..12); <=3 pools per scheduler", symbolic="failing request index, pool kind/access/automatic, position of the caller's pool"))
     KD = [("ABTI_ktable_free.function_pointer_call.1", ["thread_key_destructor_stackable_sched", "thread_key_destructor_migration"])]
     for nm, defs, d, to in [("thread_create_noattr", ["WHICH=0", "WITH_ATTR=0"], "ABT_thread_create (default attributes) into a built-in or user-defined pool", 200),
                             ("thread_create_migcb", ["WHICH=0", "WITH_ATTR=1"], "ABT_thread_create with an attribute carrying a migration callback (migration record + key table)", 300),
